@@ -19,7 +19,7 @@ def gen_history(rng, n, length):
     for k in (1, 2, 3):
         ops.append({"o": "new", "vals": vals(k)}); hs.append(k)
     for _ in range(length):
-        c = rng.choice(["new", "set", "set", "set", "clone", "deep", "add", "add", "add", "add_multi", "build", "build", "build_final", "exec", "exec", "exec", "get"])
+        c = rng.choice(["new", "set", "set", "set", "clone", "deep", "add", "add", "add", "add_multi", "build", "build", "build_final", "exec", "exec", "exec", "get", "export"])
         if c == "new":
             k = rng.choice([1, 1, 2, 3]); ops.append({"o": "new", "vals": vals(k)}); hs.append(k)
         elif c == "set":
@@ -52,6 +52,8 @@ def gen_history(rng, n, length):
             ops.append({"o": c}); ncirc += 1
         elif c == "exec" and ncirc:
             ops.append({"o": "exec", "c": rng.randrange(ncirc)})
+        elif c == "export" and ncirc:
+            ops.append({"o": "export", "c": rng.randrange(ncirc)})
     # every built circuit is executed once more at the very end (after all updates)
     for ci in range(ncirc): ops.append({"o": "exec", "c": ci})
     return ops
@@ -72,6 +74,17 @@ def gen_cases(ctx):
                {"o": "set", "h": 0, "vals": v1}, {"o": "exec", "c": 0}, {"o": "build_final"}, {"o": "deep", "h": 0}, {"o": "set", "h": 2, "vals": v0},
                {"o": "exec", "c": 0}, {"o": "exec", "c": 1}, {"o": "get", "h": 0}, {"o": "get", "h": 1}, {"o": "get", "h": 2}]
         cases.append({"op": "param", "mode": "history", "n": n, "v": rand_vec(rng, n, "normalised"), "ops": ops, "thr": 10})
+    # every multi-gate builder form, plain and controlled, with four targets and four pairwise different parameters: gate i holds
+    # parameter i (visible after updating one of them); and export - update - export of the SAME circuit object
+    for kind in [k for k in ARITY if k != "Match"]:
+        for cs in ([], [4]):
+            k = ARITY[kind]
+            ops = [{"o": "new", "vals": [float2bits(0.2 + 0.37 * i + 0.11 * j) for j in range(k)]} for i in range(4)]
+            ts = [2, 0, 3, 1]
+            ops += [{"o": "add_multi", "kind": kind, "hs": [0, 1, 2, 3], "ts": ts, "cs": cs}, {"o": "build"}, {"o": "exec", "c": 0}, {"o": "export", "c": 0},
+                    {"o": "set", "h": 1, "vals": [float2bits(-1.3 + 0.2 * j) for j in range(k)]}, {"o": "exec", "c": 0}, {"o": "export", "c": 0},
+                    {"o": "set", "h": 3, "vals": [float2bits(2.1 - 0.3 * j) for j in range(k)]}, {"o": "exec", "c": 0}, {"o": "export", "c": 0}]
+            cases.append({"op": "param", "mode": "history", "n": 5, "v": rand_vec(rng, 5, "normalised"), "ops": ops, "thr": 10})
     for kind in ("RyPhase", "RyPhaseDag"):
         cases.append({"op": "param", "mode": "stress", "kind": kind, "a": [float2bits(0.7), float2bits(1.9)], "b": [float2bits(2.3), float2bits(-0.6)],
                       "writers": 2 if not ctx.thorough() else 4, "readers": 3 if not ctx.thorough() else 6, "millis": 700 if not ctx.thorough() else 4000})
@@ -101,8 +114,9 @@ def cq_obs(ob):
 
 def coq_term(c, r):
     tab = "[" + ";".join("(%s,(%s,%s,%s,%s))" % tuple(cqf(x) for x in e) for e in r["trig"]) + "]"
+    keep = [i for i, o in enumerate(c["ops"]) if o["o"] != "export"]
     return "check_param_history %s %s %s %s [%s] [%s]" % (tab, cqbool(c["n"] >= c["thr"]), cqN(c["n"]), cqvec(c["v"]),
-                                                             ";".join(cq_xop(o) for o in c["ops"]), ";".join(cq_obs(o) for o in r["obs"]))
+                                                             ";".join(cq_xop(c["ops"][i]) for i in keep), ";".join(cq_obs(r["obs"][i]) for i in keep))
 
 def brief(c):
     if c["mode"] == "stress": return {"mode": "stress", "kind": c["kind"]}
@@ -138,13 +152,20 @@ def judge(ctx, cases, results, codes):
         if code is None: continue
         stats["execs"] += sum(1 for o in c["ops"] if o["o"] == "exec")
         stats["mismatch_refused"] += sum(1 for o, ob in zip(c["ops"], r["obs"]) if o["o"] == "add_multi" and not ob.get("ok", True))
+        for o, ob in zip(c["ops"], r["obs"]):
+            if o["o"] == "export":
+                stats["exports"] = stats.get("exports", 0) + 1
+                if ob.get("ok") and not ob.get("same_as_fresh"):
+                    ctx.violations.append(("the export of a built circuit does not show the parameters' current values: it differs from the export of a freshly assembled circuit holding the same gates (operation %d of the history)" % c["ops"].index(o),
+                                           {"case": c, "brief": b, "text": ob.get("text", "")[:800]}))
         if code == 0: stats["histories_ok"] += 1
         else:
-            o = c["ops"][code - 1]; ob = r["obs"][code - 1]
+            keep = [i for i, o in enumerate(c["ops"]) if o["o"] != "export"]
+            o = c["ops"][keep[code - 1]]; ob = r["obs"][keep[code - 1]]
             what = {"exec": "executing a built circuit did not apply the concrete gates with the parameters' CURRENT values",
                     "get": "a handle does not read the value last set through one of its aliases",
                     "add_multi": "multi-gate builder form: wrong acceptance for the given target / parameter list lengths"}.get(o["o"], "builder operation %s behaved differently" % o["o"])
-            ctx.violations.append((what + " (operation %d of the history: %s)" % (code, o["o"]), {"case": c, "brief": b, "failing_op_index": code - 1, "op": o, "observed": {k: v for k, v in ob.items() if k != "v"}}))
+            ctx.violations.append((what + " (operation %d of the history: %s)" % (keep[code - 1] + 1, o["o"]), {"case": c, "brief": b, "failing_op_index": keep[code - 1], "op": o, "observed": {k: v for k, v in ob.items() if k != "v"}}))
     return stats
 
 def run(ctx):
